@@ -5,6 +5,34 @@ HERE = os.path.dirname(os.path.dirname(os.path.abspath(__file__)))
 props = [json.loads(l)["id"] for l in open(os.path.join(HERE, "properties.jsonl"))]
 
 CHECKS = {
+ "C04": dict(
+    category="model_checking",
+    text="TLC checks on TSM.tla (one action per ClientSSM/ServerSSM handler, FIFO medium with counted drop/dup/delay faults, "
+         "discrete-event timers) that every interleaving and every placement of up to two faults of each kind ends in exactly one "
+         "outcome of an allowed kind, within the stated time bound, with no transaction/timer left and no client frame after the "
+         "outcome, and that a local no-response abort comes only after all retries. The real state machines are bound to the model: "
+         "an edge cover of TLC's state graph is forced step by step on real StateMachineAccessPoints, and every single fault at every "
+         "frame, sampled/all fault pairs, total silence from every frame on and random multi-fault runs are recorded and validated by "
+         "TLC (Trace_TSM.tla: conformance of each step + the same TLA+ monitors on the logged states, incl. heap/transaction residue).",
+    design_ref="DESIGN.md 5 (C04), Appendix A.2",
+    note="Trusted: TLC; harness/tsmrig.py (scheduler + projection, ~350 lines) and its independent APDU header reader; the medium is the "
+         "harness (FIFO per direction). One transaction between two nodes (concurrency is C11). Exhaustive only within the fault budget "
+         "and segment counts of the listed configs; larger cases by trace validation.",
+    technique="TLA+ spec (TSM.tla) + TLC exhaustive over interleavings and fault placements; state-graph replay into the real state machines; TLC trace validation of recorded real executions"),
+ "C05": dict(
+    category="model_checking",
+    text="TLC checks on TSM.tla payload integrity in both directions (tokens = segment indexes), consecutive sequence numbers mod 256, "
+         "more-follows, window bound/range, a prefix invariant on the reassembly buffer, and SingleFaultRepaired (any one drop, duplicate "
+         "or delay still ends in the positive outcome) for 1-4 x 1-4 segments, windows 1..8 with 9 segments and 258-260 segments with "
+         "SeqMod 256; each named deviation (behaviour of the pinned tree) is shown to violate the property (non-vacuity). Binding: "
+         "state-graph edge cover forced on the real code; fault-free runs for the boundary (quick) / all (thorough) payload lengths "
+         "0..4*seg+2 for six APDU sizes, every single fault at every frame under two scheduler orders for windows 1..8, transfers beyond "
+         "256 segments with faults around the wrap, random multi-fault runs -- all validated by TLC step by step, plus octet-for-octet "
+         "comparison of delivered and submitted payloads.",
+    design_ref="DESIGN.md 5 (C05), Appendix A.2",
+    note="Trusted: TLC; harness/tsmrig.py; position-coded payload maps octets to segment tokens. Timeouts well-ordered (4*Tseg < Tapdu): "
+         "the library's default device timeouts (finding F16) are not exercised.",
+    technique="TLA+ spec (TSM.tla) + TLC exhaustive; state-graph replay; TLC trace validation of recorded real executions"),
  "C14": dict(
     category="model_checking",
     text="TLC checks every C14 clause (fire order, FIFO among equals, never early, once per install, no fire after suspend, "
